@@ -31,6 +31,8 @@ VARIABLES l,        \* index of the next line
           rrv,      \* node number -> (event -> round-received as observed)
           meta,     \* the x record of the segment's Init line (scenario parameters)
           ref,      \* C03: complete output of the reference instance of the segment
+          pools,    \* node number -> transaction pool as last observed
+          lostSet,  \* nodes that suffered an injected store fault (no longer "honest full-history" nodes)
           evals,    \* C03: event -> << round, witness, lamport >> as first reported by any node
           fames,    \* C03: witness -> fame as first decided by any node
           sub,      \* submitted transaction ids -> node
@@ -38,7 +40,7 @@ VARIABLES l,        \* index of the next line
           drift,    \* accumulated conformance mismatches
           stats     \* counters (for vacuity control)
 
-vars == << l, D, nodes, dlv, sto, psto, rrv, meta, ref, evals, fames, sub, viol, drift, stats >>
+vars == << l, D, nodes, dlv, sto, psto, rrv, meta, ref, pools, lostSet, evals, fames, sub, viol, drift, stats >>
 
 Line == Trace[l]
 NodeNums == DOMAIN nodes
@@ -63,8 +65,8 @@ Stats0 == [ lines |-> 0, syncs |-> 0, inserts |-> 0, blocks |-> 0, traces |-> 0,
 BodyFields(b) == << b.idx, b.rr, b.txs, b.itxs, b.rcpt, b.fh, b.ph, b.ts, b.big, b.sh, b.dig >>
 
 \* C01: any two nodes' delivered sequences agree index by index
-Inv_C01_Agreement(dv) ==
-    \A a, b \in DOMAIN dv :
+Inv_C01_Agreement(dv, lost) ==
+    \A a, b \in (DOMAIN dv) \ lost :
         \A i \in 1..MinI(Len(dv[a]), Len(dv[b])) :
             BodyFields(dv[a][i]) = BodyFields(dv[b][i])
 
@@ -106,11 +108,19 @@ Inv_C04_Once(dv) ==
 \* (ii) a block holds exactly the events received in its round, and inside it
 \* parents precede children.  Blocks are delivered in increasing
 \* round-received (C02), so the committed order extends ancestry.
-Inv_C04_Causal(DD, rv, o) ==
+Inv_C04_Causal(DD, rv, o, dvn) ==
+    LET hasPayload(r) == \E e \in DOMAIN rv : rv[e] = r /\ e \in DOMAIN DD /\ (DD[e].txs # << >> \/ DD[e].itxs # << >>)
+        deliveredBefore(r, i) == \E j \in 1..(i - 1) : dvn[j].rr = r
+    IN
     \A k \in 1..Len(o.blocks) :
         LET b == o.blocks[k]
-            okp(p) == p = "" \/ p \notin DOMAIN DD \/ (p \in DOMAIN rv /\ rv[p] <= b.rr)
-        IN  \A i \in 1..Len(b.evs) : okp(DD[b.evs[i]].sp) /\ okp(DD[b.evs[i]].op)
+            i == Len(dvn) - Len(o.blocks) + k          \* position of b in the delivered sequence
+            \* the parent is received no later, and if its frame carries payload
+            \* its block was delivered before this one
+            okp(p) == p = "" \/ p \notin DOMAIN DD
+                      \/ (/\ p \in DOMAIN rv /\ rv[p] <= b.rr
+                          /\ (rv[p] < b.rr /\ hasPayload(rv[p])) => deliveredBefore(rv[p], i))
+        IN  \A m \in 1..Len(b.evs) : okp(DD[b.evs[m]].sp) /\ okp(DD[b.evs[m]].op)
 
 \* an event is never received in a round whose frame was already processed
 \* (it would never be committed)
@@ -132,21 +142,26 @@ Inv_C04_Payload(DD, dvn, fromIdx) ==
              = Flatten([ k \in 1..Len(dvn[i].evs) |->
                             [ m \in 1..Len(DD[dvn[i].evs[k]].itxs) |-> DD[dvn[i].evs[k]].itxs[m].id ] ])
 
-\* C05: committed transactions were submitted; none committed twice
+\* sb: transaction id (content) -> sequence of the nodes it was submitted to
+\* (one entry per submission: duplicate-content transactions are a multiset)
+CountIn(sq, x) == Cardinality({ i \in DOMAIN sq : sq[i] = x })
+
+\* C05: committed transactions were submitted; none committed more often than submitted
 Inv_C05_OnlySubmittedOnce(dv, sb) ==
     \A n \in DOMAIN dv :
         LET ts == Flatten([ i \in 1..Len(dv[n]) |-> AsSeq(dv[n][i].txs) ]) IN
-        /\ \A i \in 1..Len(ts) : ts[i] \in DOMAIN sb
-        /\ \A i, j \in 1..Len(ts) : i # j => ts[i] # ts[j]
+        \A t \in SeqToSet(ts) : t \in DOMAIN sb /\ CountIn(ts, t) <= Len(sb[t])
 
-\* C05: an accepted transaction is in the pool or in exactly one own event
+\* C05: an accepted transaction is never dropped (neither pending nor in any
+\* event of the node that accepted it) and never placed in more of its events
+\* than it was submitted.  poolOf: the pools as last OBSERVED.
 Inv_C05_NeverDropped(DD, nds, sb, poolOf) ==
-    \A t \in { u \in DOMAIN sb : sb[u] \in DOMAIN nds } :
-        LET n == sb[t]
-            inPool == SeqContains(poolOf[n], t)
-            inEvents == { e \in DOMAIN DD : DD[e].c = nds[n].h.me /\ SeqContains(DD[e].txs, t) }
-        IN  /\ inPool => inEvents = {}
-            /\ ~inPool => Cardinality(inEvents) = 1
+    \A t \in DOMAIN sb : \A n \in SeqToSet(sb[t]) \cap DOMAIN nds :
+        LET want == CountIn(sb[t], n)
+            inPool == CountIn(poolOf[n], t)
+            own == { e \in DOMAIN DD : DD[e].c = nds[n].h.me }
+            placed == FoldSet(LAMBDA e, acc : acc + CountIn(DD[e].txs, t), 0, own)
+        IN  placed <= want /\ placed + inPool >= want
 
 \* C18: block timestamp is the median of the famous witnesses' claimed times
 Inv_C18_IsMedian(DD, b) ==
@@ -311,7 +326,11 @@ FunOfSeq(sq, key(_), val(_)) ==
     Strict([ e \in { key(sq[k]) : k \in 1..Len(sq) } |->
                val(sq[CHOOSE k \in 1..Len(sq) : key(sq[k]) = e]) ])
 
-Checks(pid, name, ok) == IF ok THEN {} ELSE { [ p |-> pid, inv |-> name, l |-> l, t |-> Line.t ] }
+Checks(pid, name, ok) ==
+    IF ok THEN {}
+    ELSE IF Line.a = "Sync" /\ "lost" \in DOMAIN Line.x
+         THEN { [ p |-> pid, inv |-> name, l |-> l, t |-> Line.t, d |-> "after-store-fault:" \o Line.x.lost ] }
+         ELSE { [ p |-> pid, inv |-> name, l |-> l, t |-> Line.t ] }
 
 \* with a detail field identifying the input class (used by known findings)
 ChecksD(pid, name, d, ok) == IF ok THEN {} ELSE { [ p |-> pid, inv |-> name, l |-> l, t |-> Line.t, d |-> d ] }
@@ -330,6 +349,8 @@ TInit ==
     /\ rrv = EmptyFun
     /\ meta = [ nc |-> 0 ]
     /\ ref = [ set |-> FALSE ]
+    /\ pools = EmptyFun
+    /\ lostSet = {}
     /\ evals = EmptyFun
     /\ fames = EmptyFun
     /\ sub = EmptyFun
@@ -348,6 +369,8 @@ TraceReset ==
            /\ sto' = [ n \in ns |-> << >> ]
            /\ psto' = [ n \in ns |-> << >> ]
            /\ rrv' = [ n \in ns |-> << >> ]
+           /\ pools' = [ n \in ns |-> << >> ]
+    /\ lostSet' = {}
     /\ D' = EmptyFun
     /\ meta' = Line.x
     /\ ref' = [ set |-> FALSE ]
@@ -361,21 +384,28 @@ TraceCreate ==
     /\ Line.a = "Create"
     /\ D' = Ext(D, Line.x.id, EvRec(Line.x))
     /\ stats' = Bump(Bump(stats, "creates"), "lines")
-    /\ UNCHANGED << nodes, dlv, sto, psto, rrv, meta, evals, fames, ref, sub, viol, drift >>
+    /\ UNCHANGED << nodes, dlv, sto, psto, rrv, meta, pools, lostSet, evals, fames, ref, sub, viol, drift >>
 
 TraceSubmit ==
     /\ Line.a = "Submit"
     /\ nodes' = IF Line.n \in DOMAIN nodes
                 THEN [ nodes EXCEPT ![Line.n].txpool = Append(@, Line.x.tx) ] ELSE nodes
-    /\ sub' = Ext(sub, Line.x.tx, Line.n)
+    /\ sub' = Ext(sub, Line.x.tx, Append(Get(sub, Line.x.tx, << >>), Line.n))
+    /\ pools' = IF Line.n \in DOMAIN pools THEN [ pools EXCEPT ![Line.n] = Append(@, Line.x.tx) ] ELSE pools
     /\ stats' = Bump(stats, "lines")
-    /\ UNCHANGED << D, dlv, sto, psto, rrv, meta, evals, fames, ref, viol, drift >>
+    /\ UNCHANGED << D, dlv, sto, psto, rrv, meta, lostSet, evals, fames, ref, viol, drift >>
 
 \* Everything a Sync line implies, computed once (TLC caches LET values inside
 \* an operator, not inside an action).
+\* x.lost: a transient store error was injected into this node at or before
+\* this step.  The specification does not model partially applied passes, so
+\* it stops tracking the node (no Conf_* checks); the property checks on the
+\* observed state go on.
 SyncOutcome(n, x, o) ==
     LET nd == nodes[n]
-        r == TraceSyncResult(D, nd, x, o)
+        lostNow == "lost" \in DOMAIN x
+        r == IF lostNow THEN [ nd |-> nd, adm |-> TRUE, mis |-> FALSE, selfok |-> TRUE, wantsOK |-> TRUE, skips |-> 0 ]
+             ELSE TraceSyncResult(D, nd, x, o)
         nd1 == r.nd
         h1 == nd1.h
         newOut == SubSeq(h1.out, Len(nd.h.out) + 1, Len(h1.out))
@@ -388,14 +418,17 @@ SyncOutcome(n, x, o) ==
         rrNew == Strict([ e \in { o.rr[k].e : k \in 1..Len(o.rr) } |->
                            o.rr[CHOOSE k \in 1..Len(o.rr) : o.rr[k].e = e].rr ])
         rv1 == rrNew @@ rrv[n]
-        valsNew == FunOfSeq(o.vals, LAMBDA v : v.e, LAMBDA v : << v.r, v.w, v.l >>)
+        \* (values a faulted node could not compute are reported as negative: not a result)
+        valsSeen == SelectSeq(AsSeq(o.vals), LAMBDA v : v.r >= 0 /\ v.l >= 0)
+        valsNew == FunOfSeq(valsSeen, LAMBDA v : v.e, LAMBDA v : << v.r, v.w, v.l >>)
         decidedPairs == UNION { { << o.rounds[k].ws[j].e, o.rounds[k].ws[j].f >> : j \in 1..Len(o.rounds[k].ws) } : k \in 1..Len(o.rounds) }
         fameNew == Strict([ e \in { q[1] : q \in { p \in decidedPairs : p[2] # "U" } } |->
                              (CHOOSE q \in decidedPairs : q[1] = e /\ q[2] # "U")[2] ])
-        crossVals == \A e \in DOMAIN valsNew : e \in DOMAIN evals => evals[e] = valsNew[e]
-        crossRR == \A e \in DOMAIN rrNew : \A m \in DOMAIN rrv : (m # n /\ e \in DOMAIN rrv[m]) => rrv[m][e] = rrNew[e]
-        crossFame == \A e \in DOMAIN fameNew : e \in DOMAIN fames => fames[e] = fameNew[e]
-        V == Checks("C01", "Inv_C01_Agreement", o.blocks = << >> \/ Inv_C01_Agreement(dlv1))
+        lost1 == IF lostNow THEN lostSet \cup {n} ELSE lostSet
+        crossVals == lostNow \/ \A e \in DOMAIN valsNew : e \in DOMAIN evals => evals[e] = valsNew[e]
+        crossRR == lostNow \/ \A e \in DOMAIN rrNew : \A m \in (DOMAIN rrv) \ lost1 : (m # n /\ e \in DOMAIN rrv[m]) => rrv[m][e] = rrNew[e]
+        crossFame == lostNow \/ \A e \in DOMAIN fameNew : e \in DOMAIN fames => fames[e] = fameNew[e]
+        V == Checks("C01", "Inv_C01_Agreement", o.blocks = << >> \/ Inv_C01_Agreement(dlv1, lost1))
              \cup Checks("C02", "Inv_C02_Consecutive", o.blocks = << >> \/ Inv_C02_Consecutive(dlv1))
              \cup Checks("C02", "Inv_C02_StoreKeepsDelivered", ~hasStore \/ Inv_C02_StoreKeepsDelivered(dlv1, sto1))
              \cup Checks("C02", "Inv_C02_SigsOnlyGrow", ~hasStore \/ Inv_C02_SigsOnlyGrow(sto1, psto1))
@@ -403,17 +436,18 @@ SyncOutcome(n, x, o) ==
              \cup Checks("C03", "Inv_C03_CrossNodeRoundReceived", crossRR)
              \cup Checks("C03", "Inv_C03_CrossNodeFame", crossFame)
              \cup Checks("C04", "Inv_C04_Once", o.blocks = << >> \/ Inv_C04_Once(dlv1))
-             \cup Checks("C04", "Inv_C04_Causal", Inv_C04_Causal(D, rv1, o))
+             \cup Checks("C04", "Inv_C04_Causal", Inv_C04_Causal(D, rv1, o, dlv1[n]))
              \cup Checks("C04", "Inv_C04_BlockIsFrame", Inv_C04_BlockIsFrame(D, rv1, o))
-             \cup Checks("C04", "Inv_C04_NoLateReceive", Inv_C04_NoLateReceive(nd.h.lcr, o))
+             \cup Checks("C04", "Inv_C04_NoLateReceive", lostNow \/ Inv_C04_NoLateReceive(nd.h.lcr, o))
              \cup Checks("C04", "Inv_C04_Payload", o.blocks = << >> \/ Inv_C04_Payload(D, dlv1[n], from))
              \cup Checks("C05", "Inv_C05_OnlySubmittedOnce", o.blocks = << >> \/ Inv_C05_OnlySubmittedOnce(dlv1, sub))
              \cup Checks("C05", "Inv_C05_NeverDropped",
-                         Inv_C05_NeverDropped(D, nodes1, sub, [ m \in DOMAIN nodes1 |-> IF m = n THEN AsSeq(o.txpool) ELSE nodes1[m].txpool ]))
+                         Inv_C05_NeverDropped(D, nodes1, sub, [ pools EXCEPT ![n] = AsSeq(o.txpool) ]))
              \cup Checks("C07", "Inv_C07_OnlyAdmissible", r.adm)
              \cup Checks("C18", "Inv_C18_IsMedian", \A k \in 1..Len(o.blocks) : Inv_C18_IsMedian(D, o.blocks[k]))
              \cup Checks("C18", "Inv_C18_Bounded", \A k \in 1..Len(o.blocks) : Inv_C18_Bounded(D, o.blocks[k], Liars(meta)))
-        F == Checks("-", "Conf_Vals", ConfVals(h1, o))
+        F == IF lostNow THEN {} ELSE
+             Checks("-", "Conf_Vals", ConfVals(h1, o))
              \cup Checks("-", "Conf_RR", ConfRR(h1, o))
              \cup Checks("-", "Conf_Rounds", ConfRounds(h1, o))
              \cup Checks("-", "Conf_Blocks", ConfBlocks(newOut, o))
@@ -427,7 +461,7 @@ SyncOutcome(n, x, o) ==
              \cup Checks("-", "Conf_SelfEvent", r.selfok /\ r.wantsOK)
              \cup Checks("-", "Conf_FameUnambiguous", ~h1.ambig)
     IN  [ nodes |-> nodes1, dlv |-> dlv1, sto |-> sto1, psto |-> psto1, rrv |-> [ rrv EXCEPT ![n] = rv1 ],
-          evals |-> valsNew @@ evals, fames |-> fames @@ fameNew,
+          evals |-> IF lostNow THEN evals ELSE valsNew @@ evals, fames |-> IF lostNow THEN fames ELSE fames @@ fameNew, lostSet |-> lost1, pools |-> [ pools EXCEPT ![n] = AsSeq(o.txpool) ],
           viol |-> AddCapped(viol, V), drift |-> AddCapped(drift, F),
           stats |-> [ stats EXCEPT !.lines = @ + 1, !.syncs = @ + 1,
                                    !.inserts = @ + Len(x.ins) + Len(x.new),
@@ -443,6 +477,8 @@ TraceSync ==
           /\ psto' = R.psto
           /\ rrv' = R.rrv
           /\ evals' = R.evals
+          /\ pools' = R.pools
+          /\ lostSet' = R.lostSet
           /\ fames' = R.fames
           /\ viol' = R.viol
           /\ drift' = R.drift
@@ -482,14 +518,14 @@ TraceQuorum ==
           /\ viol' = AddCapped(viol, R.v)
           /\ drift' = AddCapped(drift, R.f)
           /\ stats' = [ stats EXCEPT !.lines = @ + 1, !.inserts = @ + R.n ]
-    /\ UNCHANGED << D, nodes, dlv, sto, psto, rrv, meta, evals, fames, ref, sub >>
+    /\ UNCHANGED << D, nodes, dlv, sto, psto, rrv, meta, pools, lostSet, evals, fames, ref, sub >>
 
 TraceQuorumAccept ==
     /\ Line.a = "QuorumAccept"
     /\ LET rows == Line.x.rows IN
        /\ viol' = AddCapped(viol, Checks("C19", "Inv_C19_Accept", \A k \in 1..Len(rows) : Inv_C19_Accept(rows[k])))
        /\ stats' = [ stats EXCEPT !.lines = @ + 1, !.inserts = @ + Len(rows), !.blocks = @ + Len(rows) ]
-    /\ UNCHANGED << D, nodes, dlv, sto, psto, rrv, meta, evals, fames, ref, sub, drift >>
+    /\ UNCHANGED << D, nodes, dlv, sto, psto, rrv, meta, pools, lostSet, evals, fames, ref, sub, drift >>
 
 -----------------------------------------------------------------------------
 (* C03: one DAG, many instances                                            *)
@@ -547,11 +583,26 @@ TraceHgInsert ==
     /\ Line.a = "HgInsert"
     /\ \E R \in { HgOutcome(Line.n, Line.x, Line.o) } :
           /\ nodes' = R.nodes /\ ref' = R.ref /\ drift' = R.drift /\ stats' = R.stats
-    /\ UNCHANGED << D, dlv, sto, psto, rrv, meta, evals, fames, sub, viol >>
+    /\ UNCHANGED << D, dlv, sto, psto, rrv, meta, pools, lostSet, evals, fames, sub, viol >>
 
 TraceInstance ==
     /\ Line.a = "Instance"
     /\ \E V \in { IF Line.o.err # "" THEN {}      \* unsupported configuration (an error, not a result)
+                    ELSE IF "faulty" \in DOMAIN Line.x
+                    THEN \* transient store write failures in the commit path: the blocks handed
+                         \* to the application are still delivered once, in order, whole
+                         LET bs == AsSeq(Line.o.blocks)
+                             evsAll == Flatten([ k \in 1..Len(bs) |-> AsSeq(bs[k].evs) ])
+                             txsAll == Flatten([ k \in 1..Len(bs) |-> AsSeq(bs[k].txs) ])
+                         IN  ChecksD("C02", "Inv_C02_Consecutive", "store-fault",
+                                     \A k \in 1..Len(bs) : bs[k].idx = k - 1 /\ (k > 1 => bs[k].rr > bs[k-1].rr))
+                             \cup ChecksD("C04", "Inv_C04_Once", "store-fault",
+                                     \A i, j \in 1..Len(evsAll) : i # j => evsAll[i] # evsAll[j])
+                             \cup ChecksD("C05", "Inv_C05_OnlySubmittedOnce", "store-fault",
+                                     \A i, j \in 1..Len(txsAll) : i # j => txsAll[i] # txsAll[j])
+                             \cup ChecksD("C02", "Inv_C02_SameAsFaultFree", "store-fault",
+                                     Len(bs) <= Len(ref.blocks) /\
+                                     \A k \in 1..MinI(Len(bs), Len(ref.blocks)) : BlockKey(bs[k]) = BlockKey(ref.blocks[k]))
                     ELSE IF Line.x.subset
                     THEN ChecksD("C03", "Inv_C03_Prefix", "subset", Inv_C03_Prefix(ref, OutRec(Line.o)))
                     ELSE IF Line.o.partial   \* some values not observable (evicted): blocks must be equal, the rest as far as seen
@@ -563,7 +614,7 @@ TraceInstance ==
     /\ stats' = [ stats EXCEPT !.lines = @ + 1, !.inserts = @ + Line.x.nins,
                                !.blocks = @ + Len(Line.o.blocks),
                                !.skipped = @ + (IF Line.o.err # "" THEN 1 ELSE 0) ]
-    /\ UNCHANGED << D, nodes, dlv, sto, psto, rrv, meta, evals, fames, ref, sub, drift >>
+    /\ UNCHANGED << D, nodes, dlv, sto, psto, rrv, meta, pools, lostSet, evals, fames, ref, sub, drift >>
 
 \* common.Median tabulated from the real code on enumerated lists
 TraceMedian ==
@@ -572,13 +623,13 @@ TraceMedian ==
        /\ viol' = AddCapped(viol, Checks("C18", "Inv_C18_MedianFunction",
                         \A k \in 1..Len(rows) : Median(AsSeq(rows[k].l)) = rows[k].m))
        /\ stats' = [ stats EXCEPT !.lines = @ + 1, !.inserts = @ + Len(rows) ]
-    /\ UNCHANGED << D, nodes, dlv, sto, psto, rrv, meta, evals, fames, ref, sub, drift >>
+    /\ UNCHANGED << D, nodes, dlv, sto, psto, rrv, meta, pools, lostSet, evals, fames, ref, sub, drift >>
 
 \* lines that carry no specification step (the driver could not run the step)
 TraceNoop ==
     /\ Line.a \in { "SyncFail", "Note" }
     /\ stats' = Bump(stats, "lines")
-    /\ UNCHANGED << D, nodes, dlv, sto, psto, rrv, meta, evals, fames, ref, sub, viol, drift >>
+    /\ UNCHANGED << D, nodes, dlv, sto, psto, rrv, meta, pools, lostSet, evals, fames, ref, sub, viol, drift >>
 
 TraceStep ==
     /\ l <= NLines
@@ -593,7 +644,7 @@ TraceDone ==
     /\ PrintT(<< "@@DRIFT", drift >>)
     /\ PrintT(<< "@@STATS", stats >>)
     /\ PrintT(<< "@@DONE", NLines >>)
-    /\ UNCHANGED << D, nodes, dlv, sto, psto, rrv, meta, ref, evals, fames, sub, viol, drift, stats >>
+    /\ UNCHANGED << D, nodes, dlv, sto, psto, rrv, meta, ref, pools, lostSet, evals, fames, sub, viol, drift, stats >>
 
 TNext == TraceStep \/ TraceDone
 
